@@ -256,11 +256,16 @@ func serverBatch(c *h.Case) {
 	lo := 26000 + slot*250 + 60
 	hi := lo + 150
 	b := &batch{c: c, bind: ps[0], http: ps[1], mux: ps[2], dash: ps[3], lo: lo, hi: hi, pfx: fmt.Sprintf("b%d.", c.Idx), perActor: run.N(2500, 9000)}
+	vhostLines := fmt.Sprintf("vhostHTTPPort = %d\ntcpmuxHTTPConnectPort = %d", b.http, b.mux)
+	if c.Idx%2 == 1 {
+		// a server without vhost http / tcpmux listeners: registrations that need them must be refused, not crash
+		vhostLines = ""
+	}
+	c.Data["vhost_listeners"] = vhostLines != ""
 	cfg := fmt.Sprintf(`
 bindAddr = "127.0.0.1"
 bindPort = %d
-vhostHTTPPort = %d
-tcpmuxHTTPConnectPort = %d
+%s
 auth.token = "%s"
 userConnTimeout = 2
 maxPortsPerClient = 8
@@ -268,7 +273,7 @@ subDomainHost = "sub.test"
 webServer.addr = "127.0.0.1"
 webServer.port = %d
 allowPorts = [{start=%d,end=%d}]
-`, b.bind, b.http, b.mux, token, b.dash, lo, hi)
+`, b.bind, vhostLines, token, b.dash, lo, hi)
 	child, err := h.StartChild(prop, "frps", cfg, fmt.Sprintf("VNODE_PERTURB=%d", c.Rng.Int63()))
 	if err != nil {
 		if child != nil {
@@ -343,6 +348,7 @@ allowPorts = [{start=%d,end=%d}]
 	actor("nathole", 0, b.natholeChurn)
 	actor("nathole", 1, b.natholeChurn)
 	actor("quota", 0, b.quotaActor)
+	actor("registrations", 0, b.registrationVariants)
 	actor("traffic", 0, func(g *gen, n int) { b.trafficActor(g, n, honestPort) })
 	actor("dashboard", 0, b.dashboardActor)
 	wg.Wait()
@@ -595,6 +601,46 @@ func (b *batch) sessionLiveness(p *h.Peer, what string) {
 		b.c.Data["last_messages"] = b.log.tail()
 		b.stalled.Store(true)
 		b.c.Violation("frps-session-message-handling-stalled", "%s: the control connection is open but a Ping sent after the session's other messages got no Pong within 30 s (the session's message handling is stuck)", what)
+	}
+}
+
+// registrationVariants enumerates NewProxy messages over proxy type x multiplexer x group x endpoint fields
+// with otherwise well-formed values (the random fuzzers rarely produce a registration that passes validation).
+func (b *batch) registrationVariants(g *gen, n int) {
+	types := []string{"tcp", "udp", "http", "https", "tcpmux", "stcp", "sudp", "xtcp", "", "TCP", "unknown"}
+	muxes := []string{"", "httpconnect", "HTTPCONNECT", "other"}
+	for round := 0; round < n/400+1 && !b.dead(); round++ {
+		p, err := b.dial(h.PeerOpts{})
+		if err != nil || !p.LoggedIn() {
+			continue
+		}
+		k := 0
+		for _, typ := range types {
+			for _, mux := range muxes {
+				for _, grp := range []string{"", b.pfx + "vg"} {
+					for _, dom := range [][]string{nil, {fmt.Sprintf("v%d.%sreg.test", k, b.pfx)}} {
+						k++
+						m := &msg.NewProxy{ProxyName: fmt.Sprintf("%sv%d-%d", b.pfx, round, k), ProxyType: typ, Multiplexer: mux, Group: grp, GroupKey: "k", CustomDomains: dom, Sk: "k"}
+						if g.r.Intn(3) == 0 {
+							m.SubDomain = fmt.Sprintf("s%d", k)
+						}
+						if g.r.Intn(3) == 0 {
+							m.RemotePort = b.lo + 1 + g.r.Intn(b.hi-b.lo)
+						}
+						b.log.add("registration-variant", m)
+						if p.Send(m) != nil {
+							break
+						}
+						if k%8 == 0 {
+							_ = p.CloseProxy(m.ProxyName)
+						}
+					}
+				}
+			}
+		}
+		b.sessionLiveness(p, "session after the registration variants")
+		p.Close()
+		run.Count("registration_variant_sessions", 1)
 	}
 }
 
@@ -935,7 +981,7 @@ func clientBatch(c *h.Case) {
 		},
 	})
 	if err != nil {
-		run.Inconclusive("fake server did not start")
+		run.Inconclusive("fake server did not start: " + err.Error())
 		return
 	}
 	defer fs.Close()
@@ -1114,7 +1160,7 @@ func clientCancelCase(c *h.Case) {
 	fs, err := h.StartFakeServer(h.FakeServerOpts{Port: port, Token: token, TCPMux: true,
 		OnSession: func(s *h.FakeSession) { logged <- struct{}{} }})
 	if err != nil {
-		run.Inconclusive("fake server did not start")
+		run.Inconclusive("fake server did not start: " + err.Error())
 		return
 	}
 	defer fs.Close()
